@@ -134,7 +134,8 @@ static int te_slot_of(pthread_t thr) {
 int te_pthread_join(pthread_t thr, void **ret) {
   te_preempt();
   int t = te_slot_of(thr);
-  VASSERT(t != 0 && !te_detached[t] && !te_joined[t], "pthread_join only on a joinable, not yet joined thread");
+  VASSERT(t != 0 && !te_joined[t], "pthread_join only on a created, not yet joined thread");
+  if (te_detached[t]) return EINVAL;            /* not a joinable thread: fails at once, waits for nothing */
   if (te_state[t] == TE_PENDING) te_run(t);     /* the joiner blocks: the target runs now */
   VASSUME(te_state[t] == TE_FINISHED);          /* target suspended below us: would block forever in this emulation */
   te_joined[t] = 1;
@@ -222,7 +223,9 @@ int te_pthread_attr_destroy(pthread_attr_t *a) {
 int te_pthread_attr_setdetachstate(pthread_attr_t *a, int st) {
   (void) a; te_entry();
   VASSERT(te_attr_live > 0, "pthread_attr_* on an initialised attribute object");
-  if (st != PTHREAD_CREATE_JOINABLE && st != PTHREAD_CREATE_DETACHED) return EINVAL;
+  /* (an assertion, not an EINVAL branch: `st` may be a symbolic expression over a pboolean argument, and a symbolic
+   * error exit of create would make the handle pointer symbolic) */
+  VASSERT(st == PTHREAD_CREATE_JOINABLE || st == PTHREAD_CREATE_DETACHED, "pthread_attr_setdetachstate with a valid detach state");
   if (te_fault()) return EINVAL;
   te_attr_detach = st;
   return 0;
